@@ -95,6 +95,9 @@ def run(chk):
     # ------------------------------------------------------------------ R4 prefix symmetry
     r4 = chk.rule("C04.R4", "prefix symmetry: every key-addressed command validates and sends its key with self.key_prefix")
     prefix_symmetry(prog, r4)
+    from .rules_C20 import wrapper_returns
+
+    wrapper_returns(prog, r4)
     # ------------------------------------------------------------------ R5 serializer tables (re-run of the C15 rules)
     r5 = chk.rule("C04.R5", "values written through the pickle / compressed serializers are read back through the inverse decoder: the C15 dispatch and compression-flag tables hold")
     from . import rules_C15, report
